@@ -238,6 +238,39 @@ func driveRandomLegal(c *driverCtx, prop string) {
 		done++
 	}
 	c.extra["random_legal_files"] = done
+	// one file whose single block is larger than 1 MiB (any partition of the records into file blocks is legal)
+	type bigRec struct {
+		B []byte `json:"b"`
+		S string `json:"s"`
+	}
+	bt := reflect.TypeOf(bigRec{})
+	bs, _ := avro.SchemaForType(bigRec{})
+	bsj, _ := bs.Marshal()
+	bsn, _ := schemaNodeFromJSON(bsj)
+	for ci, codec := range codecs3 {
+		if ci > 0 && !c.thorough() {
+			break
+		}
+		var recs []any
+		var raw []byte
+		for k := 0; k < 2; k++ {
+			var b []byte
+			p := payload(c.rng, 650000)
+			b = appendVar(b, int64(len(p)))
+			b = append(b, p...)
+			b = appendVar(b, 3)
+			b = append(b, 'e', 'n', 'd')
+			recs = append(recs, byteList(b))
+			raw = append(raw, b...)
+		}
+		file := buildContainer(bsj, codec, true, []byte("0123456789abcdef"), [][2]any{{2, raw}})
+		r := readBack(bt, file, "bytes", false, -1, nil)
+		c.rec.NewCase()
+		c.rec.Emit(fmt.Sprintf("%s|random-legal|block-over-1MiB|%s", prop, codec), map[string]any{
+			"op": "rand_read", "mode": prop, "schema": bsn, "records": recs, "target": projectType(bt), "codec": codec,
+			"delivered": orEmpty(r.delivered), "recheck": []any{}, "err": errString(r.err), "panic": r.panicked})
+		c.rec.Realised("block-over-1MiB")
+	}
 }
 
 func driveVectors(c *driverCtx, prop string) error {
